@@ -205,4 +205,45 @@ def check(run, model, tier):
         run.inst('CMP.queue-kind', r, 'drained by get() only', ok,
                  '' if ok else ('the delivery thread touches its priority queue through %s%s: only get() hands out items in (priority, publish order); the underlying list is a binary heap, '
                                 'so reading it directly delivers a backlog out of order' % (uses, (' and passes it to ' + ', '.join(passed)) if passed else '')), obligation=True)
+        # delivered in the order of get(): whatever comes out of the queue (the item, its event) may be tested, read and handed to a subscriber's queue, but it is
+        # never parked in a container of the thread's own - a parked backlog is delivered in the container's order (by signal, by subscriber ...), not by priority
+        CONT = {'dict', 'list', 'deque', 'defaultdict', 'OrderedDict', 'set'}
+        ldefs = local_defs(r.node)
+        containers = {k_ for k_, v_ in ldefs.items() if any((not isinstance(x_, tuple)) and (isinstance(x_, (ast.Dict, ast.List, ast.Set, ast.ListComp, ast.DictComp)) or
+                                                             (isinstance(x_, ast.Call) and norm(x_.func).split('.')[-1] in CONT)) for x_ in v_)}
+        # tuple-unpacked literals: `waiting, taken = {}, 0`
+        for n_ in walk_shallow(r.node):
+            if isinstance(n_, ast.Assign) and isinstance(n_.targets[0], ast.Tuple) and isinstance(n_.value, ast.Tuple) and len(n_.targets[0].elts) == len(n_.value.elts):
+                for t_, v_ in zip(n_.targets[0].elts, n_.value.elts):
+                    if isinstance(t_, ast.Name) and (isinstance(v_, (ast.Dict, ast.List, ast.Set)) or (isinstance(v_, ast.Call) and norm(v_.func).split('.')[-1] in CONT)):
+                        containers.add(t_.id)
+        tainted = set()
+        for _ in range(4):
+            for n_ in walk_shallow(r.node):
+                if isinstance(n_, ast.Assign):
+                    v_ = n_.value
+                    src = (isinstance(v_, ast.Call) and isinstance(v_.func, ast.Attribute) and v_.func.attr in ('get', 'get_nowait') and isinstance(v_.func.value, ast.Name) and v_.func.value.id in aliases) \
+                        or any(isinstance(x_, ast.Name) and x_.id in tainted for x_ in ast.walk(v_))
+                    if src:
+                        for t_ in n_.targets:
+                            for x_ in ast.walk(t_):
+                                if isinstance(x_, ast.Name) and x_.id not in containers:
+                                    tainted.add(x_.id)
+
+        def rooted_in_container(e_):
+            while isinstance(e_, (ast.Attribute, ast.Subscript, ast.Call)):
+                e_ = e_.func if isinstance(e_, ast.Call) else e_.value
+            return isinstance(e_, ast.Name) and e_.id in containers
+        parked = []
+        for n_ in walk_shallow(r.node):
+            if isinstance(n_, ast.Call) and isinstance(n_.func, ast.Attribute) and n_.func.attr in ('append', 'appendleft', 'extend', 'insert', 'add', 'setdefault', 'update', 'put') \
+                    and rooted_in_container(n_.func.value) and any(isinstance(x_, ast.Name) and x_.id in tainted for a_ in list(n_.args) + [k_.value for k_ in n_.keywords] for x_ in ast.walk(a_)):
+                parked.append(n_)
+            if isinstance(n_, ast.Assign) and any(isinstance(t_, ast.Subscript) and rooted_in_container(t_.value) for t_ in n_.targets) \
+                    and any(isinstance(x_, ast.Name) and x_.id in tainted for x_ in ast.walk(n_.value)):
+                parked.append(n_)
+        run.inst('CMP.queue-kind', r, 'items are delivered as they come out of get() (never parked in a container of the thread)', not parked,
+                 '' if not parked else ('the delivery thread parks what it takes from the priority queue in a container of its own (%s) and delivers from there: a backlog is then delivered '
+                                        'in the container\'s order (grouped by signal name, by subscriber, ...) instead of (priority, publication order)' % norm(parked[0])),
+                 node=parked[0] if parked else None, obligation=True)
     run.assume('queue.PriorityQueue.get returns the smallest item by `<` (heapq); itertools.count.__next__ is atomic under the GIL')
